@@ -3,6 +3,7 @@ package main
 import (
 	"encoding/json"
 	"fmt"
+	"go/token"
 	"os"
 	"path/filepath"
 	"sort"
@@ -133,6 +134,27 @@ func orderPairs(g *ssa.Function) []string {
 	return out
 }
 
+// pureLoopTest: the header does nothing but evaluate the loop's condition (`for i < n`, `for range`):
+// its exit edge is the loop ending by itself.  The header of `for { … }` is the first part of the body;
+// leaving from there is leaving from inside.
+func pureLoopTest(h *ssa.BasicBlock) bool {
+	for _, ins := range h.Instrs {
+		switch x := ins.(type) {
+		case *ssa.Call:
+			if _, isB := x.Call.Value.(*ssa.Builtin); !isB {
+				return false
+			}
+		case *ssa.Store, *ssa.Send, *ssa.Select, *ssa.MapUpdate, *ssa.Go, *ssa.Defer:
+			return false
+		case *ssa.UnOp:
+			if x.Op == token.ARROW {
+				return false
+			}
+		}
+	}
+	return true
+}
+
 func hasLoop(g *ssa.Function) bool {
 	for _, b := range g.Blocks {
 		if isLoopHeader(b) {
@@ -179,8 +201,8 @@ func successExitsFromLoops(g *ssa.Function) []*ssa.Return {
 			}
 		}
 		for b := range body {
-			if b == h {
-				continue
+			if b == h && pureLoopTest(h) {
+				continue // the loop's own exit: the condition of `for cond` / the end of a range
 			}
 			for _, x := range b.Succs {
 				if body[x] {
@@ -203,8 +225,13 @@ func successExitsFromLoops(g *ssa.Function) []*ssa.Return {
 			}
 		}
 	}
+	if errIdx < 0 {
+		// without an error result there is no telling a successful exit from any other (a search
+		// loop returns true or false from inside the loop as a matter of course)
+		return nil
+	}
 	for _, r := range returnsOf(g) {
-		if errIdx >= 0 && (len(r.Results) <= errIdx || !isNilConst(returnedValue(r, errIdx))) {
+		if len(r.Results) <= errIdx || !isNilConst(returnedValue(r, errIdx)) {
 			continue
 		}
 		fromLoop := earlyExit[r.Block()]
